@@ -708,7 +708,7 @@ impl<'a> CBORValidator<'a> {
 
   // Helper function to resolve a Type2 bound to a usize value
   fn resolve_range_bound(&self, bound: &Type2<'a>) -> std::result::Result<RangeBound, String> {
-    match bound {
+    match resolve_range_operand(self.state.cddl, bound) {
       Type2::UintValue { value, .. } => Ok(RangeBound::Uint(*value)),
       Type2::IntValue { value, .. } => Ok(RangeBound::Int(*value)),
       Type2::FloatValue { value, .. } => Ok(RangeBound::Float(*value)),
@@ -1641,6 +1641,11 @@ where
     ctrl: ControlOperator,
     controller: &Type2<'a>,
   ) -> visitor::Result<Error<T>> {
+    let (target, controller) = (
+      strip_operand_parens(target),
+      strip_operand_parens(controller),
+    );
+
     if let Type2::Typename {
       ident: target_ident,
       ..
